@@ -984,6 +984,8 @@ def _patch_str(p):
             out.append("marker")
         else:
             out.append(ln["v"] + ((" " + ln["t"]) if ln.get("t") else ""))
+    if p.get("other"):
+        out.append("[" + p["other"]["sect"] + ": " + "; ".join(l.get("raw") or (l["label"] + ":") for l in p["other"]["lines"]) + "]")
     return "; ".join(out)
 
 
@@ -1036,6 +1038,10 @@ def shrink_candidates(prop, scenario):
             if p and p.get("constraints"):
                 c = copy.deepcopy(sc)
                 c["sessions"][si]["ops"][oi]["patch"]["constraints"] = {}
+                yield c
+            if p and p.get("other") and not any(l.get("t") == p["other"]["lines"][0].get("label") for l in p["lines"]):
+                c = copy.deepcopy(sc)
+                del c["sessions"][si]["ops"][oi]["patch"]["other"]
                 yield c
     # shrink the module: drop blocks nobody refers to, drop items
     yield from _module_candidates(sc)
